@@ -1,6 +1,6 @@
 # C13 - generator: consumer sees exactly the yielded sequence, in every access style
 import re
-from ..core import norm, relloc, live, calls, evs, Broken, value_origin, Tracer, fmt_trace, rooted, has_back_edge, cond_event
+from ..core import tests, norm, relloc, live, calls, evs, Broken, value_origin, Tracer, fmt_trace, rooted, has_back_edge, cond_event
 from .. import atomic, witness
 from ..rules import *
 
@@ -131,10 +131,11 @@ def wake_asker_once(ctx, db):
             rs = all_indices(tr, callee_is('cocls::awaiter::resume'))
             if len(rs) != 1:
                 seen_bad = seen_bad or ('the asker is resumed %d times' % len(rs), tr); continue
-            ex = index_of(tr, lambda ev: ev.k == 'call' and norm(ev.get('callee')) == 'std::exchange' and any((a.get('path') or '').endswith('->_caller') for a in ev.get('args', [])))
+            ex = index_of(tr, lambda ev: null_store(ev, '->_caller'))
+            org, rd = origin_in_trace(tr, rs[0], tr[rs[0]].get('recv'))
             if ex < 0 or ex > rs[0]:
                 seen_bad = seen_bad or ('the asker is not taken by exchange(_caller, nullptr) before it is resumed (it could be woken twice)', tr)
-            elif value_origin(f, f.ev(tr[rs[0]].get('recv_ev'))) is None and tr[rs[0]].get('recv') != 'call(std::exchange)':
+            elif not (org or '').endswith('->_caller') or rd > ex:
                 seen_bad = seen_bad or ('the awaiter resumed is not the one taken from _caller', tr)
             for it in tr[rs[0] + 1:]:
                 p = it.get('path') or ''
@@ -148,7 +149,7 @@ def wake_asker_once(ctx, db):
 def unblock_future(ctx, db):
     rid = ctx.rule('C13.unblock-future', 'COUNT', 'unblock_future resolves the waiting promise exactly once on every path: with drop only on the edge where done() is true, with the stored exception '
                    'exactly when one is present (tested before the value), otherwise with the yielded value *_ret', floor=1)
-    T = Tracer(db, depth=0)
+    T = htracer(db)
     fns = db.need(P + '::unblock_future')
     seen_bad = None
     for f in fns:
@@ -164,10 +165,14 @@ def unblock_future(ctx, db):
             for i, it in enumerate(tr):
                 if it.k == 'branch':
                     ce = cond_event(tr, i)
-                    if ce is not None and ce.k == 'call' and norm(ce.get('callee')) == P + '::done':
+                    if (ce is not None and ce.k == 'call' and norm(ce.get('callee')) == P + '::done') or any(tests(it, c) for c in calls(tr) if norm(c.get('callee')) == P + '::done'):
                         done = bool(it.val)
                     if ce is not None and ce.k == 'call' and 'exception_ptr::operator bool' in norm(ce.get('callee') or ''):
                         exc = bool(it.val)
+                    else:
+                        nt = null_test(tr, i)
+                        if nt and (nt[0] or '').endswith('_exp'):
+                            exc = bool(nt[1])
             ap = a.get('path') or ''
             if 'drop' in ap or 'DropTag' in (a.get('type') or ''):
                 arms.add('end')
